@@ -76,7 +76,7 @@ def run(ctx):
     logging.getLogger("paramiko").addHandler(logging.NullHandler())
     logging.getLogger("paramiko").propagate = False
     threading.excepthook = lambda a: None  # prefetch threads die noisily when a hung case is torn down
-    n = ctx.pick(70, 600)
+    n = ctx.pick(70, 900)
     end = ctx.deadline(240, 1200)
     replayed = 0
     for idx in range(n):
